@@ -128,6 +128,14 @@ func newFakeIdP() *fakeIdP {
 	return f
 }
 
+// rotate: the provider withdraws its signing key and signs with another one from now on (published
+// under the same key id); "badsig" tokens are from now on signed with the withdrawn key.
+func (f *fakeIdP) rotate() {
+	f.mu.Lock()
+	f.key, f.otherKey = f.otherKey, f.key
+	f.mu.Unlock()
+}
+
 func (f *fakeIdP) idToken(cb codeBehaviour) string {
 	key := f.key
 	if cb.kind == "badsig" {
